@@ -51,7 +51,10 @@ func (l leafVal) asString() string {
 func tagOf(f eng.Field, src string) string {
 	for _, t := range f.Tags {
 		if t[0] == src {
-			return t[1]
+			// the name in a source tag is what precedes its first comma; a tag without a name names nothing
+			if name, _, _ := strings.Cut(t[1], ","); name != "" {
+				return name
+			}
 		}
 	}
 	for _, t := range f.Tags {
@@ -64,7 +67,7 @@ func tagOf(f eng.Field, src string) string {
 
 func streamFront(seed uint64, n int, driver string) (*Summary, error) {
 	sum := newSummary("front", seed)
-	sum.Rule = "random flat record schemas (1..5 fields of string/int/bool/time/[]string, Required/Default/tests, random json/form/query/env/zog tags) and, one case in four, a nested struct field; one record rendered through 6 front ends (Go map, zjson, zhttp JSON, form, query, env), in half of the cases through ONE shared schema object with a rotating first front end; non-trivial = at least one tag differs from the schema key or a field is missing; distinct = distinct (schema, record)"
+	sum.Rule = "random flat record schemas (1..5 fields of string/int/bool/time/[]string, Required/Default/tests, random json/form/query/env/zog tags, source tags with options after the name or without a name) and, one case in four, a nested struct field; one record rendered through 6 front ends (Go map, zjson, zhttp JSON, form, query, env — env values padded on either side with ASCII and non-ASCII Unicode white space), in half of the cases through ONE shared schema object with a rotating first front end; non-trivial = at least one tag differs from the schema key or a field is missing; distinct = distinct (schema, record)"
 	root := rng.New(seed)
 	var lines []string
 	var impls []string
@@ -98,7 +101,13 @@ func streamFront(seed uint64, n int, driver string) (*Summary, error) {
 			f := eng.Field{Key: key, GoName: strings.ToUpper(key[:1]) + key[1:]}
 			for _, src := range []string{"zog", "json", "form", "query", "env"} {
 				if r.P(1, 3) {
-					f.Tags = append(f.Tags, [2]string{src, fmt.Sprintf("%s_%s%d", src[:1], key, i%7)})
+					tv := fmt.Sprintf("%s_%s%d", src[:1], key, i%7)
+					if src != "zog" && r.P(1, 4) {
+						tv += rng.Pick(r, []string{",omitempty", ",omitempty,string", ","}) // options after the name
+					} else if src != "zog" && r.P(1, 12) {
+						tv = ",omitempty" // no name: the tag does not name the key
+					}
+					f.Tags = append(f.Tags, [2]string{src, tv})
 					tagged = true
 				}
 			}
@@ -211,7 +220,9 @@ func streamFront(seed uint64, n int, driver string) (*Summary, error) {
 			}
 			form.Set(tagOf(f, "form"), lv.asString())
 			query.Set(tagOf(f, "query"), lv.asString())
-			envs[tagOf(f, "env")] = " " + lv.asString() + " " // env values are trimmed
+			// env values are trimmed of Unicode white space (strings.TrimSpace), ASCII or not, on either side
+			envPads := []string{"", " ", " ", "\t", "\n ", "\u00a0", "\u0085", "\u2003", "\u3000", "\u00a0 ", " \u3000", "\u2028\u00a0", "\v\f"}
+			envs[tagOf(f, "env")] = rng.Pick(r, envPads) + lv.asString() + rng.Pick(r, envPads)
 			envV.O = append(envV.O, eng.KV{K: tagOf(f, "env"), V: eng.VStr(lv.asString())})
 		}
 		if nested {
